@@ -140,6 +140,8 @@ class SessionManager:
         else:
             src_port = None
             dst_port = None
+            if not inbound_frame:
+                with_ip_address = frame.ip.dst_ip_address  # (the peer of an outbound frame is its destination)
         return protocol, with_ip_address, src_port, dst_port
 
     def resolve_outbound_network_interface(self, dst_ip_address: IPv4Address) -> Optional["NetworkInterface"]:
